@@ -6,6 +6,7 @@ from vf.runner import Acc
 from vf.sim import install
 
 ID = "C12"
+OPT_QUICK_ALL = True      # every partition also in a child interpreter started with -O
 LEVEL = "model_checking"
 TECHNIQUE = "breadth-first explicit-state search over write / write-same / sync histories through the real facade against a simulated conformant block target, SG_IO and iSCSI in lock-step, disk state de-duplicated, every state read back in full and compared with a dict reference model"
 RULE = ("events: write10/12/16 and writesame10/16 (incl. unmap, anchor, ndob) over LBAs {0,1,2^32-2,2^32-1 | 2^32, 2^40+3, 2^63+5, 2^64-2, 2^64-1 (16-byte forms)} x "
